@@ -55,7 +55,13 @@ Proof. exact parse_print. Qed.
 Theorem C01_node_roundtrip : forall n : node, dec_node (enc_node n) = Some n.
 Proof. exact dec_enc_node. Qed.
 
-(* value level, for every registry that leaves the un-namespaced core children alone *)
+(* value level, for every registry that leaves the un-namespaced core children alone.
+   wf_value is the domain; the one restriction that is not about characters, names or
+   number ranges: an IQ whose Error pointer is non-nil must not point to the all-empty
+   Err (wf_iq).  Err.MarshalXML writes nothing for an all-empty Err (it cannot tell a
+   pointer from a value), so IQ{Error:&Err{}} is written as <iq></iq> and read back
+   with Error == nil; for Message/Presence the field is a value and the all-empty Err
+   round-trips as itself. *)
 Theorem C01_roundtrip_core : forall (reg : registry) (v : value),
   reg_ok reg = true -> wf_value reg v = true ->
   dec reg (vtype_of v) (enc v) = Some v.
@@ -99,10 +105,15 @@ Theorem C01_roundtrip_live_registry : forall v : value,
   exists t, parse (print (enc v)) = Some t /\ dec Generated.registry (vtype_of v) t = Some v.
 Proof. intros v Hw. exact (C01_roundtrip_wire Generated.registry v C01_registry_ok Hw). Qed.
 
-(* recorded finding (code left as it is): SMFailed.UnmarshalXML never reads h *)
-Theorem C01_smfailed_h_refuted : exists (reg : registry) (v : value),
-  reg_ok reg = true /\ dec reg (vtype_of v) (enc v) <> Some v.
-Proof. exists [], (VSMFailed (Some 5)). split; [reflexivity|discriminate]. Qed.
+(* <failed/> with any count h round-trips (the h attribute is read back since
+   /repo d770553; before that this was the recorded finding C01_smfailed_h_refuted) *)
+Theorem C01_smfailed_roundtrip : forall (reg : registry) (h : option N),
+  opt_fits64 h = true ->
+  dec reg TSMFailed (enc (VSMFailed h)) = Some (VSMFailed h).
+Proof.
+  intros reg [n|] H; [|reflexivity].
+  cbn. rewrite parse_uint_utoa; [reflexivity|now apply fits64_lt].
+Qed.
 
 (* ---------- non-vacuity ---------- *)
 Definition C01_example_message : value :=
@@ -131,4 +142,4 @@ Print Assumptions C01_reprint.
 Print Assumptions C01_skeleton.
 Print Assumptions C01_registry_ok.
 Print Assumptions C01_roundtrip_live_registry.
-Print Assumptions C01_smfailed_h_refuted.
+Print Assumptions C01_smfailed_roundtrip.
